@@ -841,7 +841,7 @@ def cond_structures(n, depth):
     return block(n, depth)
 
 
-IF_FORMS = ["if0", "if1", "ifk1", "ifk2", "ifdef", "ifndef", "ifneg", "ifbig", "ifdiff"]
+IF_FORMS = ["if0", "if1", "ifk1", "ifk2", "ifdef", "ifndef", "ifneg", "ifbig", "ifdiff", "ifdiv0", "ifnosym"]
 STMTS = ["mark", "msg", "garbage", "define", "mark", "labeluse"]
 
 
@@ -882,11 +882,16 @@ def cond_program(struct, choice):
                 prog.append(line("if", e=binop("<<", lit(1), lit(63))))
             elif f == "ifdiff":
                 prog.append(line("if", e=binop("-", sym("kk"), lit(3))))
+            elif f == "ifdiv0":                                                 # no value: an error where it is evaluated, nothing where it is not
+                prog.append(line("if", e=binop("/", lit(1), binop("-", sym("kk"), lit(1)))))
+            elif f == "ifnosym":
+                prog.append(line("if", e=binop("+", sym("nosuchsym"), lit(1))))
             else:
                 prog.append(line(f, n="FLAG"))
         elif s[0] == "elif":
-            f = choice(i, ["0", "1", "k1", "k2", "neg"])
-            prog.append(line("elif", e=lit(int(f)) if f in "01" else un("~", lit(0)) if f == "neg" else binop("==", sym("kk"), lit(int(f[-1])))))
+            f = choice(i, ["0", "1", "k1", "k2", "neg", "div0", "nosym"])
+            prog.append(line("elif", e=lit(int(f)) if f in "01" else un("~", lit(0)) if f == "neg" else binop("%", lit(7), lit(0)) if f == "div0"
+                             else sym("nosuchsym") if f == "nosym" else binop("==", sym("kk"), lit(int(f[-1])))))
     return prog
 
 
@@ -935,6 +940,19 @@ def check_c08(prop, tier, seed, devices):
                         if l["k"] in CONDK and rnd.random() < 0.7:
                             l["pfx"] = "#"
                     cases.append(Case(p2, tag="len%d#" % n, msg_texts=texts))
+    # conditionals inside macro bodies: every expansion is read anew, with the definitions in force at that call
+    for ncalls in (1, 2, 3, 4):
+        for pfx in (".", "#"):
+            for first in ("ifndef", "ifdef"):
+                body = [line(first, n="SEEN", pfx=pfx), line("define", n="SEEN"), instr("ldi", R(16), E(1)), line("else", pfx=pfx),
+                        instr("ldi", R(17), E(2)), line("endif", pfx=pfx)]
+                for pre in ([], [line("define", n="SEEN")]):
+                    prog = [line("macro", n="once")] + copy.deepcopy(body) + [line("endm")] + copy.deepcopy(pre) + [call("once") for _ in range(ncalls)] + [instr("nop")]
+                    cases.append(Case(prog, tag="macro-cond"))
+                    prog = [line("macro", n="sel")] + [line("if", e=binop("==", arg(0), lit(1)), pfx=pfx), data(1, E(0x11)), line("elif", e=binop("==", arg(0), lit(2)), pfx=pfx),
+                                                        data(1, E(0x22)), line("else", pfx=pfx), data(1, E(0x33)), line("endif", pfx=pfx)] + [line("endm")] + \
+                           [call("sel", E(1 + (k + ncalls) % 3)) for k in range(ncalls)]
+                    cases.append(Case(prog, tag="macro-cond"))
     # de-duplicate
     seen, uniq = set(), []
     for c in cases:
@@ -1224,6 +1242,17 @@ def macro_bodies():
                                       data(1, ARG(3), ARG(4), ARG(5), ARG(6), ARG(7), ARG(8), ARG(9))]))
     out.append(("tenfwd", "rrreeeeeee", [call("ten", ARG(2), ARG(1), ARG(0), ARG(9), ARG(8), ARG(7), ARG(6), ARG(5), ARG(4), ARG(3))]))
     out.append(("third", "eee", [data(1, ARG(2), ARG(0))]))
+    # bodies are kept as written: letters of strings and character constants, names of conditional symbols
+    out.append(("text", "e", [data(1, S("Hello, World"), E(chrlit(ord("A"))), ARG(0), S("MiXeD cAsE"), E(chrlit(ord("z"))))]))
+    out.append(("textr", "r", [instr("ldi", ARG(0), E(chrlit(ord("Q")))), instr("cpi", ARG(0), E(binop("+", chrlit(ord("a")), lit(1))))]))
+    out.append(("flagged", "e", [line("ifdef", n="DeBug"), data(1, ARG(0)), line("else"), data(1, E(0x77)), line("endif"),
+                                 line("ifndef", n="RELEASE"), data(1, E(0x55)), line("endif")]))
+    # a body whose effect depends on what earlier expansions did: each expansion is read anew
+    out.append(("once", "", [line("ifndef", n="DONE_ONCE"), line("define", n="DONE_ONCE"), instr("ldi", R(16), E(1)), line("else"),
+                             instr("ldi", R(17), E(2)), line("endif")]))
+    out.append(("oncearg", "r", [line("ifndef", n="DONE_ARG"), line("define", n="DONE_ARG"), instr("inc", ARG(0)), line("else"),
+                                 instr("dec", ARG(0)), line("endif")]))
+    out.append(("counted", "", [instr("nop"), data(2, E(sym("pc")))]))
     return out
 
 
@@ -1280,7 +1309,7 @@ def check_c09(prop, tier, seed, devices):
                 if dn not in seen:
                     seen.add(dn)
                     defs += definition(dn, db, defcase if dn == name else "lower")
-            placement = rnd.choice(["after-def", "before-def", "both", "after-org", "after-seg"])
+            placement = rnd.choice(["after-def", "before-def", "both", "after-org", "after-seg", "after-code-org"])
             # an .org directly followed by another .org or by a segment switch is a shape the properties leave open
             # (C02 excludes it as well): a body that starts with one is not called right after an .org
             if placement == "after-org" and body[0]["k"] in ("org", "seg"):
@@ -1290,7 +1319,13 @@ def check_c09(prop, tier, seed, devices):
                 argsets = argsets[:1]
                 calls = calls[:1]
             head = [equ("kk", 5)]
-            if placement == "after-def":
+            if name == "flagged":
+                head += [line("define", n="DeBug")] if rep % 2 == 0 else [line("define", n="RELEASE")]
+            if name in ("once", "oncearg", "counted"):
+                calls = [copy.deepcopy(c) for c in (calls * 3)[:2 + rep % 3]]
+            if placement == "after-code-org":
+                prog = head + defs + [org(0x100), instr("nop")] + calls + [instr("ret")]
+            elif placement == "after-def":
                 prog = head + defs + [instr("nop")] + calls + [instr("ret")]
             elif placement == "before-def":
                 prog = head + calls + [instr("ret")] + defs
